@@ -114,8 +114,10 @@ def sub_merge(case):
             if not mean_ok:
                 raise Mismatch("array %s: all inputs have equal lengths but the result is not the element-wise mean" % k, observed="array_mean", key=k)
         elif per_key_equal[k]:
-            if not (mean_ok or concat_ok):
-                raise Mismatch("array %s (mixed case): neither element-wise mean nor concatenation in input order" % k, observed="array_mixed", key=k)
+            # not all inputs have equal array lengths: every array is concatenated, also one whose own length happens to agree
+            if not concat_ok:
+                raise Mismatch("array %s: the inputs do not all have equal array lengths, but this array is not the concatenation in input order%s" % (
+                    k, " (it is the element-wise mean)" if mean_ok else ""), observed="array_mixed", key=k)
         else:
             if not concat_ok:
                 raise Mismatch("array %s: lengths differ but the result is not the concatenation in input order (got size %d, expected %d)" % (
